@@ -36,7 +36,7 @@ AREAS = {
     },
     'ft': {
         'shrink_sep': ';', 'head_sep': ' | ',
-        'rule': '1-3 concurrent transfers (package size 1-6 / thorough 1-40, 1-5 / 1-12 packages, last package full or shorter, announced size true or 0, '
+        'rule': '1-3 concurrent transfers (package size 1-6 / thorough 1-40, 1-5 / 1-12 packages, last package full or shorter, in one of ten an empty file (one package without data), announced size true or - as a fault that must prevent completion - 0, '
                 'serials occasionally colliding) each with 0-2 faults (drop, duplicate-and-move, swap, resize, renumber, corrupt announcement) interleaved at '
                 'random with each other and with unrelated messages; every transfer is labelled from its final event sequence (in order / in order with '
                 'repeats / package missing or out of order / other); announced file names by serial: absolute, leading outside (../), with directory parts, `plain.bin` (exists already in the save directory), ending in `..`, colliding base names; in half of the cases a second plugin instance runs with automatic saving (glob * or *.bin) into a fresh directory: every file found there and the number of files created elsewhere are compared; non-trivial = tagged (complete, incomplete, missing FLST, duplicates, damaging fault, concurrent, auto-saved)',
